@@ -17,9 +17,12 @@ import (
 	"sync"
 	"time"
 
+	ds "github.com/ipfs/go-datastore"
+	record "github.com/libp2p/go-libp2p-record"
 	"github.com/libp2p/go-libp2p/core/network"
 	"github.com/libp2p/go-libp2p/core/peer"
 	"github.com/libp2p/go-libp2p/core/protocol"
+	"github.com/multiformats/go-base32"
 	"google.golang.org/protobuf/proto"
 
 	"github.com/libp2p/go-libp2p-kad-dht/internal/verif/vh"
@@ -230,4 +233,31 @@ func (vInValidator) Select(key string, vals [][]byte) (int, error) {
 		}
 	}
 	return best, nil
+}
+
+// vInValueDsKey recomputes the datastore key of a value record (records/value_store.go valueDsKey).
+func vInValueDsKey(key string) ds.Key {
+	ns, _, _ := record.SplitKey(key)
+	if ns == "providers" {
+		ns = base32.RawStdEncoding.EncodeToString([]byte(ns))
+	}
+	return ds.NewKey("/" + ns + "/" + base32.RawStdEncoding.EncodeToString([]byte(key)))
+}
+
+// vInTrim renders a key / value for messages.
+func vInTrim(b []byte) string {
+	if len(b) > 60 {
+		return fmt.Sprintf("%x…(%d bytes)", b[:16], len(b))
+	}
+	return string(b)
+}
+
+// vInHash is a short stable hash for case signatures.
+func vInHash(s string) string {
+	var h uint64 = 14695981039346656037
+	for i := 0; i < len(s); i++ {
+		h ^= uint64(s[i])
+		h *= 1099511628211
+	}
+	return fmt.Sprintf("%016x", h)
 }
